@@ -101,6 +101,18 @@ def run_shard(ctx):
                 second.append(e)
             text = "MODEL        1\n" + pdbio.write(body) + "ENDMDL\nMODEL        2\n" + pdbio.write(second) + "ENDMDL\n"
             s.labels.append("two-models")
+        elif draw(st.sampled_from([False, False, True])):
+            # interleaved chains: the second half of the first chain is moved to the end of the file
+            res = pdbio.residues(entries)
+            first = res[0][0][1]
+            mine = [ats for (k, ats) in res if k[1] == first and ats[0].rec == "ATOM"]
+            if len(mine) >= 4:
+                tail = set(id(a) for ats in mine[len(mine) // 2:] for a in ats)
+                head = [e for e in entries if not (isinstance(e, Atom) and id(e) in tail)
+                        and not (isinstance(e, str) and e.startswith("END"))]
+                moved = [e for e in entries if isinstance(e, Atom) and id(e) in tail]
+                text = pdbio.write(head + moved + [gen.ter_line(moved[-1])])
+                s.labels.append("interleaved-chains")
         ids = chain_ids(pdbio.parse(text))
         k = draw(st.integers(1, max(1, len(ids))))
         subset = draw(st.permutations(ids))[:k]
@@ -112,7 +124,7 @@ def run_shard(ctx):
         s, text, subset = t
         case = {"pdb": text, "subset": subset}
         v, info = check_case(case)
-        info["labels"] = info.get("labels", []) + [l for l in s.labels if l in ("two-models", "no-ter-break",
+        info["labels"] = info.get("labels", []) + [l for l in s.labels if l in ("two-models", "no-ter-break", "interleaved-chains",
                                                                               "hetero-first", "blank-chain")]
         info["sample"] = {"structure": s.summary(), "chains": chain_ids(pdbio.parse(text)), "selected": subset}
         ctx.account(case, v, info)
